@@ -171,3 +171,48 @@ pub fn class_names(c: u32) -> String {
     }
     v.join("+")
 }
+
+
+/// Parameters of the serialized payload of every DATA submessage of a datagram that carries a PL_CDR parameter
+/// list (discovery data): (writer entity id, [(parameter id, value bytes)]). Little-endian encapsulations only
+/// (what dust-dds sends). Used by C37 to see what was announced.
+pub fn discovery_parameters(d: &[u8]) -> Vec<(u32, Vec<(u16, Vec<u8>)>)> {
+    let mut out = vec![];
+    let p = parse(d);
+    for (sub, (s, l)) in p.subs.iter().zip(p.spans.iter()) {
+        let Sub::Data { writer, flags, .. } = sub else { continue };
+        let b = &d[*s + 4..(*s + *l).min(d.len())];
+        if b.len() < 24 || flags & 1 == 0 {
+            continue;
+        }
+        let o2i = u16::from_le_bytes([b[2], b[3]]) as usize;
+        let mut off = 4 + o2i;
+        let read_pl = |mut off: usize, b: &[u8]| -> (Vec<(u16, Vec<u8>)>, usize) {
+            let mut v = vec![];
+            while off + 4 <= b.len() {
+                let id = u16::from_le_bytes([b[off], b[off + 1]]);
+                let len = u16::from_le_bytes([b[off + 2], b[off + 3]]) as usize;
+                off += 4;
+                if id == 1 {
+                    break;
+                }
+                if off + len > b.len() {
+                    break;
+                }
+                v.push((id, b[off..off + len].to_vec()));
+                off += len;
+            }
+            (v, off)
+        };
+        if flags & 2 != 0 {
+            let (_, o) = read_pl(off, b);
+            off = o;
+        }
+        if off + 4 > b.len() || !(b[off] == 0 && b[off + 1] == 3) {
+            continue; // not PL_CDR_LE
+        }
+        let (params, _) = read_pl(off + 4, b);
+        out.push((*writer, params));
+    }
+    out
+}
